@@ -230,13 +230,14 @@ pub open spec fn opened_ok(w: Account<'_, Whirlpool>, mint: Pubkey, lo_in: i32, 
 //@ struct instructions/open_bundled_position.rs OpenBundledPosition
 //@ constraints instructions/open_bundled_position.rs OpenBundledPosition
 //@ fn instructions/open_bundled_position.rs handler -> r as=open_bundled_position_handler tags=C18,C04
-    requires constraints_OpenBundledPosition(old(ctx.accounts)), old(ctx.accounts).whirlpool.data.tick_spacing > 0, price_ok(old(ctx.accounts).whirlpool.data.sqrt_price as int),
+    requires constraints_OpenBundledPosition(old(ctx.accounts), bundle_index), old(ctx.accounts).whirlpool.data.tick_spacing > 0, price_ok(old(ctx.accounts).whirlpool.data.sqrt_price as int),
     ensures
         r is Ok ==> old(ctx.accounts).position_bundle_token_account.data.mint == old(ctx.accounts).position_bundle.data.position_bundle_mint && old(ctx.accounts).position_bundle_token_account.data.amount == 1, //# C04
         r is Ok ==> opened_ok(*old(ctx.accounts).whirlpool, old(ctx.accounts).position_bundle.data.position_bundle_mint, tick_lower_index, tick_upper_index, final(ctx.accounts).bundled_position.data), //# C18
         r is Ok ==> !ext_required(old(ctx.accounts).whirlpool.data), //# C18
         r is Ok ==> authority_rule(old(ctx.accounts).position_bundle_token_account.data.owner, copt(old(ctx.accounts).position_bundle_token_account.data.delegate), old(ctx.accounts).position_bundle_token_account.data.delegated_amount,
             *old(ctx.accounts).position_bundle_authority.info.key, old(ctx.accounts).position_bundle_authority.info.is_signer), //# C04
+        r is Ok ==> old(ctx.accounts).bundled_position.skey() == crate::anchor_shim::pda_of(seq![crate::anchor_shim::Seed::Lit(0x62756e646c65645f706f736974696f6eint), crate::anchor_shim::Seed::Key(old(ctx.accounts).position_bundle.data.position_bundle_mint), crate::anchor_shim::Seed::Dec(bundle_index as int)]), //# C18
         // the bundle's bitmap marks exactly one more open position: this index
         r is Ok ==> bundle_index < 256 && !bundle_open(old(ctx.accounts).position_bundle.data.position_bitmap, bundle_index as int)
             && (forall|j: int| 0 <= j < 256 ==> #[trigger] bundle_open(final(ctx.accounts).position_bundle.data.position_bitmap, j) == (j == bundle_index || bundle_open(old(ctx.accounts).position_bundle.data.position_bitmap, j))), //# C18
@@ -274,13 +275,15 @@ impl LockConfig {
 /// C18 / C04: a bundled position is closed only on the signature of the holder of the BUNDLE's token (which is also this position's mint), only when it is empty,
 /// and the bundle's bitmap loses exactly this index
 //@ fn instructions/close_bundled_position.rs handler -> r as=close_bundled_position_handler tags=C18,C04 canary
-    requires constraints_CloseBundledPosition(old(ctx.accounts)),
+    requires constraints_CloseBundledPosition(old(ctx.accounts), bundle_index),
     ensures
         r is Ok ==> old(ctx.accounts).position_bundle_token_account.data.mint == old(ctx.accounts).position_bundle.data.position_bundle_mint && old(ctx.accounts).position_bundle_token_account.data.amount == 1
             && old(ctx.accounts).bundled_position.data.position_mint == old(ctx.accounts).position_bundle.data.position_bundle_mint, //# C04
         r is Ok ==> authority_rule(old(ctx.accounts).position_bundle_token_account.data.owner, copt(old(ctx.accounts).position_bundle_token_account.data.delegate), old(ctx.accounts).position_bundle_token_account.data.delegated_amount,
             *old(ctx.accounts).position_bundle_authority.info.key, old(ctx.accounts).position_bundle_authority.info.is_signer), //# C04
         r is Ok ==> old(ctx.accounts).bundled_position.data.empty(), //# C18
+        // the position account closed is the one derived from (this bundle's mint, this index): the bit cleared below belongs to it ("bundled_position" = 0x62756e..)
+        r is Ok ==> old(ctx.accounts).bundled_position.skey() == crate::anchor_shim::pda_of(seq![crate::anchor_shim::Seed::Lit(0x62756e646c65645f706f736974696f6eint), crate::anchor_shim::Seed::Key(old(ctx.accounts).position_bundle.data.position_bundle_mint), crate::anchor_shim::Seed::Dec(bundle_index as int)]), //# C18
         r is Ok ==> bundle_index < 256 && bundle_open(old(ctx.accounts).position_bundle.data.position_bitmap, bundle_index as int)
             && (forall|j: int| 0 <= j < 256 ==> #[trigger] bundle_open(final(ctx.accounts).position_bundle.data.position_bitmap, j) == (j != bundle_index && bundle_open(old(ctx.accounts).position_bundle.data.position_bitmap, j))), //# C18
 //@ end
@@ -451,7 +454,7 @@ pub fn load_tick_array(account: &UncheckedAccount<'_>, whirlpool: &Pubkey) -> (r
 //@ end
 /// reachability canary (must FAIL): the same body with the contract 'never succeeds'
 //@ fn instructions/open_bundled_position.rs handler -> r as=reach_canary_open_bundled_position_handler tags=C18,C04
-    requires constraints_OpenBundledPosition(old(ctx.accounts)), old(ctx.accounts).whirlpool.data.tick_spacing > 0, price_ok(old(ctx.accounts).whirlpool.data.sqrt_price as int),
+    requires constraints_OpenBundledPosition(old(ctx.accounts), bundle_index), old(ctx.accounts).whirlpool.data.tick_spacing > 0, price_ok(old(ctx.accounts).whirlpool.data.sqrt_price as int),
     ensures r is Err,
 //@ rewrite /emit!\(PositionOpened \{/ => /emit_position_opened(PositionOpened {/
 //@ end
